@@ -23,9 +23,16 @@ ASSUMPTIONS = ["A-H1", "A-H2", "A-H3", "A-H4", "A-UTF8", "A-PACK", "A-REC", "A-L
 LEVEL_TEXT = ("Deductive proof of totality / determinism / pinned format of the real hashing function against a recursive spec function over the algebraic type of supported values, "
               "plus injectivity lemmas; the tie between the abstract value type and real CPython objects is a bounded check, so the level is 'other' with the parts counted separately.")
 DESIGN_REF = "5 (C05)"
-REPLAY = {
-    "dds_hash._dds_hash0#struct_pack_l_range": "h_hash.pack_range",
-}
+class _Replay(dict):
+    def get(self, key, default=None):
+        if key in self:
+            return self[key]
+        if key.startswith("dds_hash._dds_hash0#"):
+            return "h_hash.twin_mismatch"
+        return default
+
+
+REPLAY = _Replay({"dds_hash._dds_hash0#struct_pack_l_range": "h_hash.pack_range"})
 
 
 def specs():
